@@ -566,6 +566,7 @@ def run(res):
     if vm != ex:
         res.disagree("extracted OCaml vs vm_compute (listing)", None, vm, ex)
     slice_leg(res, list_drf)
+    cli_leg(res, trees, top)
     res.extra["traces_validated_against_impl"] = res.evaluations
     res.assumptions += [
         "bisect.bisect_left on a list sorted by time returns the first index >= lo whose time is not < x (modelled as such)",
@@ -576,6 +577,66 @@ def run(res):
         "an impossible calendar date in a subdirectory name makes lsdrf raise ValueError (modelled; outside the tree grammar)",
         "name seconds stay below timedelta's limit; paths are ASCII",
     ]
+
+
+def cli_leg(res, trees, top):
+    """the command line front end `drf ls` (option parsing and defaults) against lsdrf with the documented meaning
+    of the options: --nodrf / --nodmd, --drfprops / --nodrfprops / --dmdprops / --nodmdprops (unset = follow the
+    kind), -r, -R, --abs, -s / -e"""
+    import contextlib
+    import io
+    import digital_rf
+    from digital_rf import drf_command
+    rng = res.rng
+    picks = [t for t in trees if GONE not in json.dumps(t[1])]
+    picks = picks[:4] + rng.sample(picks, min(len(picks), 6 if res.tier == "quick" else 30))
+    for ti, (tname, tree) in enumerate(picks):
+        root = os.path.join(top, "cli%d" % ti)
+        materialize(root, tree)
+        times = tree_times(tree)
+        for fl in L.ALL_FLAGS:
+            for recursive, reverse in ((True, False), (False, True)):
+                st = rng.choice([None, None] + [t for t in times]) if times else None
+                argv = ["ls", root, "--abs"]
+                if recursive:
+                    argv.append("-r")
+                if reverse:
+                    argv.append("-R")
+                if not fl[0]:
+                    argv.append("--nodrf")
+                if not fl[1]:
+                    argv.append("--nodmd")
+                if fl[2] is not None:
+                    argv.append("--drfprops" if fl[2] else "--nodrfprops")
+                if fl[3] is not None:
+                    argv.append("--dmdprops" if fl[3] else "--nodmdprops")
+                if st is not None:
+                    st = (st // 10 ** 6) * 10 ** 6
+                    import datetime as _dt
+                    argv += ["-s", (L.EPOCH + _dt.timedelta(microseconds=st)).strftime("%Y-%m-%dT%H:%M:%SZ")]
+                buf = io.StringIO()
+                err = None
+                try:
+                    with contextlib.redirect_stdout(buf):
+                        drf_command.main(argv)
+                except SystemExit as e:
+                    err = "SystemExit(%s)" % e.code
+                except Exception as e:  # noqa
+                    err = type(e).__name__
+                got = [ln for ln in buf.getvalue().splitlines() if ln]
+                try:
+                    want = digital_rf.lsdrf(root, recursive=recursive, reverse=reverse, starttime=L.us_to_dt(st), **L.flag_kwargs(fl))
+                    werr = None
+                except Exception as e:  # noqa
+                    want, werr = [], type(e).__name__
+                res.case(("cli", tname, tuple(argv[2:])), nontrivial=bool(want))
+                res.count("cli-ls")
+                if (got, err) != (list(want), werr):
+                    res.violation("cli-ls-differs-from-lsdrf", "`drf ls` with these options does not print the listing the options "
+                                  "are documented to select", {"argv": ["ls", "<tree>"] + argv[2:], "tree": tree},
+                                  [os.path.relpath(x, root) for x in want][:12] + ([werr] if werr else []),
+                                  [os.path.relpath(x, root) if os.path.isabs(x) else x for x in got][:12] + ([err] if err else []))
+        shutil.rmtree(root, ignore_errors=True)
 
 
 def slice_leg(res, list_drf):
